@@ -63,6 +63,7 @@ class ScriptedSource(ScheduleSource):
         self.live_list = False
         self._live: List[Any] = []
         self.post_fail: set = set()
+        self.hook_kind = "sync"
 
     async def add_schedule(self, schedule: ScheduledTask) -> None:
         self.added[schedule.schedule_id] = schedule
@@ -112,7 +113,23 @@ class ScriptedSource(ScheduleSource):
             return self._live
         return [self._task(by[i]) for i in listed]
 
-    def post_send(self, task: ScheduledTask) -> None:
+    def post_send(self, task: ScheduledTask) -> Any:
+        """sync, or - as the hook's signature allows - a plain function handing back something to await: a coroutine ("deferred"),
+        a lazy awaitable object that is not a coroutine ("awaitable": an ORM-style query), a Future ("future")"""
+        kind = self.hook_kind
+        if kind == "sync":
+            return self._post_send(task)
+
+        async def later() -> None:
+            self._post_send(task)
+
+        if kind == "deferred":
+            return later()
+        if kind == "future":
+            return asyncio.ensure_future(later())
+        return _Lazy(later())
+
+    def _post_send(self, task: ScheduledTask) -> None:
         self.hooks.append((self.now_us(), "post_send", task.schedule_id))
         fails_now = task.schedule_id in self.post_fail
         self.post_fail.discard(task.schedule_id)
@@ -122,6 +139,16 @@ class ScriptedSource(ScheduleSource):
                 self._live[:] = [t for t in self._live if t.schedule_id != task.schedule_id]
         if fails_now:
             raise RuntimeError("post_send bookkeeping failed")      # after the message has been sent
+
+
+class _Lazy:
+    """an awaitable that is neither a coroutine nor a Future; its work happens only when it is awaited"""
+
+    def __init__(self, coro: Any) -> None:
+        self.coro = coro
+
+    def __await__(self) -> Any:
+        return self.coro.__await__()
 
 
 class RecLabelSource(LabelScheduleSource):
@@ -204,6 +231,7 @@ def run_sched(case: Dict[str, Any]) -> Dict[str, Any]:
                 src.cancel = set(s.get("cancel", ()))
                 src.live_list = bool(s.get("live_list"))
                 src.post_fail = set(s.get("post_fail", ()))
+                src.hook_kind = s.get("hook_kind", "sync")
                 srcs.append(src)
         sched = TaskiqScheduler(b, srcs)
         end_s = ((base_us // MIN_US + case["horizon_min"]) * MIN_US + 30 * 10**6 - base_us) / 1e6
